@@ -545,7 +545,7 @@ pub fn c10(cx: &mut Ctx) {
     }
     // the size ladder over the fields the verdict is read from: a Connection value with many tokens in front of
     // `close`, other long fields in front of it, a long reason phrase, on both sides
-    for l in super::ladder(cx.thorough, if cx.thorough { 32768 } else { 8192 }) {
+    for l in super::ladder(cx.thorough, 65536) {
         let tokens = "keep-alive, ".repeat(l / 12);
         let pad = "p".repeat(l);
         let heads = [format!("HTTP/1.1 200 R\r\nConnection: {}close\r\nContent-Length: 0\r\n\r\n", tokens), format!("HTTP/1.1 200 R\r\nX-Pad: {}\r\nConnection: close\r\nContent-Length: 0\r\n\r\n", pad),
